@@ -23,3 +23,7 @@ def c14_a(R, ctx):
 
 def c18_c(R, ctx):
     pass
+
+
+def c20_d(R, ctx):
+    pass
